@@ -337,7 +337,8 @@ def compare_broker(case, impl, mod, fields, j):
             # knife edge of the `amount > cash` guard: float cash and exact cash differ by a hair
             amt_ = Fraction(op[1] if op[0] == 'wdacct' else op[2])
             bal_ = [prev_m[1]] + [a[1][1] for a in prev_m[2] if op[0] == 'wdpf' and a[0] == op[1]]
-            if any(near_zero_cmp(amt_, b) for b in bal_):
+            band = KNIFE * Fraction(max(1.0, scale_of(case)))
+            if not case.get('exact') and any(abs(amt_ - b) <= band for b in bal_):
                 j.knife += 1
                 return
         prev_m = msnap
@@ -539,7 +540,8 @@ def compare_portfolio(case, impl, mod, fields, j):
         w = 'step %d %s' % (n, op)
         mres, mpf = ms
         ires = st['res']
-        if mres[0] != ires[0] and op[0] == 'wd' and prev_cash is not None and near_zero_cmp(Fraction(op[2]), prev_cash):
+        if mres[0] != ires[0] and op[0] == 'wd' and prev_cash is not None and not case.get('exact') and \
+                abs(Fraction(op[2]) - prev_cash) <= KNIFE * Fraction(max(1.0, pscale_of(case))):
             j.knife += 1
             return
         prev_cash = mpf[1]
